@@ -118,7 +118,7 @@ func runC14(c *Ctx) {
 		ast.Inspect(cl.Decl.Body, func(n ast.Node) bool {
 			switch x := n.(type) {
 			case *ast.CallExpr:
-				if sel, ok := x.Fun.(*ast.SelectorExpr); ok && sel.Sel.Name == "Lock" && strings.HasSuffix(exprString(sel.X), "bucket."+memLock) {
+				if sel, ok := x.Fun.(*ast.SelectorExpr); ok && sel.Sel.Name == "Lock" && c14IsMemLock(info, sel.X, memLock) {
 					lock = x
 				}
 			case *ast.AssignStmt:
@@ -457,10 +457,28 @@ func runC14(c *Ctx) {
 		// map: some mapping method of chainMapper walks the list with a descending index; unmap: range (ascending)
 		desc, asc := false, false
 		var where token.Pos
+		// the mapping methods of chainMapper and the package functions they hand the mapper list to
+		var mapFns []*FuncRef
+		seenMapFn := map[*ast.FuncDecl]bool{}
 		for _, fr := range p.FuncsOf(pkSt) {
 			if recvTypeName(fr.Decl) != "chainMapper" || fr.Decl.Body == nil || strings.HasPrefix(fr.Decl.Name.Name, "Unmap") {
 				continue
 			}
+			mapFns = append(mapFns, fr)
+			seenMapFn[fr.Decl] = true
+			ast.Inspect(fr.Decl.Body, func(n ast.Node) bool {
+				if call, ok := n.(*ast.CallExpr); ok {
+					if fn := Callee(fr.Info(), call); fn != nil && fn.Pkg() == pkSt.Types {
+						if h := p.DeclOf(fn); h != nil && h.Decl.Body != nil && h.Decl.Recv == nil && !seenMapFn[h.Decl] {
+							seenMapFn[h.Decl] = true
+							mapFns = append(mapFns, h)
+						}
+					}
+				}
+				return true
+			})
+		}
+		for _, fr := range mapFns {
 			ast.Inspect(fr.Decl.Body, func(n ast.Node) bool {
 				if fs, ok := n.(*ast.ForStmt); ok && fs.Post != nil {
 					if inc, ok := fs.Post.(*ast.IncDecStmt); ok && inc.Tok == token.DEC {
@@ -684,4 +702,14 @@ func c14PrefixNotPath(c *Ctx, pkgs []*packages.Package) {
 		}
 		c.Ob(rule, ssaFuncName(sf), sf.Pos(), len(bad) == 0, true, "the prefix reaches no root-rejecting helper: %v %v", len(bad) == 0, bad)
 	}
+}
+
+// c14IsMemLock: e selects the mutex member of a storagemem bucket (whatever the variable or member holding the bucket
+// is called).
+func c14IsMemLock(info *types.Info, e ast.Expr, lockField string) bool {
+	se, ok := ast.Unparen(e).(*ast.SelectorExpr)
+	if !ok || se.Sel.Name != lockField {
+		return false
+	}
+	return strings.HasSuffix(namedPath(derefType(info.TypeOf(se.X))), "storagemem.bucket")
 }
